@@ -47,6 +47,7 @@ import symkern  # noqa: E402
 DEFAULT_OUT = symkern.DEFAULT_OUT
 M64 = 2 ** 53 - 1
 MAXDEPTH = 2 ** 20
+VAR_DIVISORS = False     # gen/symroundops.py: a divisor may also be a variable (whole operations divide by a scalar)
 
 
 def die(code, msg):
@@ -85,7 +86,9 @@ def analyse(t, where, memo):
         b = analyse(t[2], where, memo)
         need = max(a.need, b.need)
         val = None
-        if k == "div":
+        if k == "div" and VAR_DIVISORS and t[2][0] == "v":
+            pass        # an exact input as divisor (coq/Proofs_RoundOpsTac.v): the caller supplies that it is non-zero
+        elif k == "div":
             if b.kint is None or b.kint == 0:
                 die(6, "instance %s: a divisor is not a non-zero integer constant (%s); the generic bound of "
                        "coq/Proofs_RoundTac.v covers divisions by exact integer constants only"
@@ -130,6 +133,8 @@ def magtext(t, where, memo):
     if k == "neg":
         return magtext(t[1], where, memo)
     a = magtext(t[1], where, memo)
+    if k == "div" and VAR_DIVISORS and t[2][0] == "v":
+        return "(%s / Rabs %s)" % (a, t[2][1])
     if k == "div":
         return "(%s / %d)" % (a, abs(analyse(t[2], where, memo).kint))
     return "(%s %s %s)" % (a, "*" if k == "mul" else "+", magtext(t[2], where, memo))
@@ -144,6 +149,8 @@ def magvalue(t, env, where, memo):
     if k == "neg":
         return magvalue(t[1], env, where, memo)
     a = magvalue(t[1], env, where, memo)
+    if k == "div" and VAR_DIVISORS and t[2][0] == "v":
+        return a / abs(env[t[2][1]])
     if k == "div":
         return a / abs(analyse(t[2], where, memo).kint)
     b = magvalue(t[2], env, where, memo)
